@@ -102,7 +102,8 @@ SHAPES = {
                                         " subroutine pub()\n  call priv()\n end subroutine pub\n subroutine priv()\n end subroutine priv\nend module tm\n"},
     "kitchen sink": KS,
     "constructors local types and file links": {
-        "src/geo.f90": ("module geo\n  !! module doc, see [[geo.f90(file)]] and [[helper]]\n  implicit none\n  private\n  public :: circle, helper, host, disc\n  type :: circle\n    !! circle doc\n    real :: r\n  end type circle\n"
+        "src/tool.c": "/*! a C helper, see [[geo]] */ int tool(void){return 0;}\n",
+        "src/geo.f90": ("module geo\n  !! module doc, see [[geo.f90(file)]] and [[tool.c]] and [[helper]]\n  implicit none\n  private\n  public :: circle, helper, host, disc\n  type :: circle\n    !! circle doc\n    real :: r\n  end type circle\n"
                         "  interface circle\n    !! constructor doc\n    module procedure new_circle\n  end interface circle\n"
                         "  type :: base_t\n    !! hidden base\n    integer :: n\n  contains\n    procedure :: show\n  end type base_t\n  type, extends(base_t) :: disc\n    !! disc doc\n  end type disc\n"
                         "  interface\n    module function twice(n) result(r)\n      !! interface doc\n      integer, intent(in) :: n\n      integer :: r\n    end function twice\n  end interface\n  public :: twice\n"
